@@ -86,8 +86,6 @@ func (w *World) doAdvEvent(in Intent) {
 	}
 }
 
-func (w *World) doSetKeys(in Intent)      {}
-func (w *World) doConfirmFuzz(in Intent)  {}
 func (w *World) doGov(in Intent)          {}
 func (w *World) doExportImport(in Intent) {}
 func (w *World) doLogicCall(in Intent)    {}
